@@ -413,15 +413,20 @@ class Array(metaclass=MetaArray):
 
             else:
                 # args must be an array of correct dimensions
-                if len(shape) > 1 and not hasattr(value, "shape"):
-                    value = _to_object_array(value, shape)
-                offsets = np.empty(shape, dtype="int64")
-                offset += items * 8
-                for idx in iter_index(shape, order):
-                    extra[idx] = cls._itemtype._inspect_args(value[idx])
-                    offsets[idx] = offset
-                    offset += extra[idx].size
-                size = _to_slot_size(offset)
+                if isinstance(value, cls) and not cls._has_refs:
+                    # same layout, copied byte by byte in _to_buffer
+                    offsets = value._offsets
+                    size = value._get_size()
+                else:
+                    if len(shape) > 1 and not hasattr(value, "shape"):
+                        value = _to_object_array(value, shape)
+                    offsets = np.empty(shape, dtype="int64")
+                    offset += items * 8
+                    for idx in iter_index(shape, order):
+                        extra[idx] = cls._itemtype._inspect_args(value[idx])
+                        offsets[idx] = offset
+                        offset += extra[idx].size
+                    size = _to_slot_size(offset)
                 info.offsets = offsets
                 info.extra = extra
 
